@@ -352,6 +352,10 @@ func (fr *Frame) atomicOp(st *State, op string, args []Val, fn *ssa.Function, po
 		}
 		guarantee(nv, TTrue, "Add")
 		ex.set(st, comp, Store(h, recv.T, nv))
+		if ex.ghost == 0 && recv.Origin != "" {
+			// ghost log of the values minted by this thread's own read-modify-write steps
+			ex.logAppend(st, "mint."+recv.Origin, nv)
+		}
 		return Val{T: nv}
 	case "store":
 		guarantee(args[1].T, TTrue, "Store")
@@ -402,4 +406,15 @@ func (fr *Frame) envStep(st *State, comp, cs string, recv Val, vt types.Type, re
 		ex.assume(st, Ge(nv, cur))
 	}
 	ex.set(st, comp, Store(h, recv.T, nv))
+}
+
+// logAppend appends a value to a named ghost log (thread-local history of the
+// call being verified; read in contracts through logN/logAt).
+func (ex *Exec) logAppend(st *State, name string, v *Term) {
+	nc := "LogN_" + sanitize(name)
+	lc := "Log_" + sanitize(name)
+	n := ex.get(st, nc, SInt)
+	l := ex.get(st, lc, ArraySort(SInt, v.Sort))
+	ex.set(st, lc, Store(l, n, v))
+	ex.set(st, nc, Add(n, IntLit(1)))
 }
